@@ -1,11 +1,401 @@
 import Driver.Json
+import OomdModel.StatsSvc
+import Std.Data.HashSet
 
-/-! Driver glue for engine `statsvc` (stub: not built yet). -/
+/-! Driver glue for engine `statsvc` (C19).  Scenario + implementation trace in, verdict out.
+
+`accepts` = the observations are ones the model `OomdModel.StatsSvc` (fixed = true) can produce:
+API histories are linearisable w.r.t. `StatsSvc.step`; each session's reply is the model handler's reply;
+init succeeds iff `copyPath` accepts the path.
+`holds`   = the clauses of property C19 evaluated on the implementation's observations with an oracle
+written separately here (sorted association lists, a direct scan of the request bytes).  -/
 namespace Driver.Statsvc
-open Lean
+open Lean OomdModel
+
+abbrev KV := List (String × Int)
+
+def sortKV (l : KV) : KV := (l.toArray.qsort (fun a b => a.1 < b.1)).toList
+
+/-- a JSON object of integers → sorted association list; none if it is not one -/
+def objToKV (j : Json) : Option KV :=
+  match j with
+  | Json.obj kvs =>
+    let ps := kvs.toList
+    if ps.all (fun (p : String × Json) => (p.2.getInt?).toOption.isSome) then
+      some (sortKV (ps.map (fun (p : String × Json) => (p.1, (p.2.getInt?).toOption.getD 0))))
+    else none
+  | _ => none
+
+def kvJson (m : KV) : Json := Json.mkObj (m.map (fun p => (p.1, Json.num (JsonNumber.fromInt p.2))))
+
+def hexVal (c : Char) : Nat :=
+  if c.isDigit then c.toNat - 48 else if 'a' ≤ c ∧ c ≤ 'f' then c.toNat - 87 else if 'A' ≤ c ∧ c ≤ 'F' then c.toNat - 55 else 0
+
+def hexBytes (s : String) : List Nat :=
+  let rec go : List Char → List Nat
+    | a :: b :: r => (hexVal a * 16 + hexVal b) :: go r
+    | _ => []
+  go s.toList
+
+def bytesToString (bs : List Nat) : Option String :=
+  if bs.all (· < 128) then some (String.ofList (bs.map Char.ofNat)) else none
+
+/-- a reply on the wire: nothing, or exactly one well-formed `{"error":e,"body":{k:int,...}}` -/
+inductive Reply where
+  | nothing
+  | one (error : Int) (body : KV)
+  | malformed (why : String)
+deriving Repr, BEq
+
+def parseReply (hex : String) : Reply :=
+  let bs := hexBytes hex
+  if bs.isEmpty then .nothing else
+  match bytesToString bs with
+  | none => .malformed "non-ascii bytes"
+  | some str =>
+    match Json.parse str with
+    | .error e => .malformed ("not exactly one JSON value: " ++ e)
+    | .ok j =>
+      match j with
+      | Json.obj kvs =>
+        if kvs.toList.length != 2 then .malformed "keys other than error/body" else
+        match (j.getObjValAs? Int "error").toOption, (j.getObjVal? "body").toOption.bind objToKV with
+        | some e, some b => .one e b
+        | _, _ => .malformed "error not an integer or body not an object of integers"
+      | _ => .malformed "not an object"
+
+/-! ## sequential specification used by `holds` (independent of OomdModel: sorted association list) -/
+
+def specGet (m : KV) (k : String) : Option Int := (m.find? (·.1 == k)).map (·.2)
+def specPut (m : KV) (k : String) (v : Int) : KV := sortKV ((k, v) :: m.filter (·.1 != k))
+
+inductive AOp where
+  | inc (k : String) (v : Int)
+  | set (k : String) (v : Int)
+  | reset
+  | get
+  | cget
+  | creset
+  | nop
+deriving Repr, BEq
+
+def parseOp (j : Json) : AOp :=
+  match asArr j with
+  | Json.str "inc" :: k :: v :: _ => .inc (asStr k) (asInt v)
+  | Json.str "set" :: k :: v :: _ => .set (asStr k) (asInt v)
+  | Json.str "reset" :: _ => .reset
+  | Json.str "get" :: _ => .get
+  | Json.str "cget" :: _ => .cget
+  | Json.str "creset" :: _ => .creset
+  | _ => .nop
+
+/-- what the implementation returned for one call -/
+inductive Obs where
+  | rc (n : Int)
+  | snap (m : KV)
+  | reply (r : Reply)
+  | none
+deriving Repr, BEq
+
+structure Call where
+  op : AOp
+  inv : Nat
+  res : Nat
+  obs : Obs
+deriving Repr
+
+/-- spec step: new state if the observation is the one the spec gives, none otherwise -/
+def specStep (m : KV) (c : Call) : Option KV :=
+  match c.op, c.obs with
+  | .inc k v, .rc 0 => some (specPut m k ((specGet m k).getD 0 + v))
+  | .set k v, .rc 0 => some (specPut m k v)
+  | .reset, .rc 0 => some (m.map (fun p => (p.1, 0)))
+  | .get, .snap s => if s == m then some m else none
+  | .cget, .reply (.one 0 b) => if b == m then some m else none
+  | .creset, .reply (.one 0 []) => some (m.map (fun p => (p.1, 0)))
+  | .nop, _ => some m
+  | _, _ => none
+
+/-- model step (OomdModel.StatsSvc.step on `CMap String`) -/
+def modelStep (m : StatsSvc.CMap String) (c : Call) : Option (StatsSvc.CMap String) :=
+  let chk (op : StatsSvc.Op String) (want : StatsSvc.Ret String → Bool) : Option (StatsSvc.CMap String) :=
+    let r := StatsSvc.step m op
+    if want r.2 then some r.1 else none
+  match c.op, c.obs with
+  | .inc k v, .rc n => chk (.inc k v) (fun r => r == .rc n.toNat && n ≥ 0)
+  | .set k v, .rc n => chk (.set k v) (fun r => r == .rc n.toNat && n ≥ 0)
+  | .reset, .rc n => chk .reset (fun r => r == .rc n.toNat && n ≥ 0)
+  | .get, .snap s => chk .getAll (fun r => match r with | .snap x => sortKV x == s | _ => false)
+  | .cget, .reply rp =>
+    -- the handler for "g\n": model reply is `reply 0 (getAll m)`
+    match StatsSvc.replies (StatsSvc.handler true ⟨[103, 10], false⟩ m).2, rp with
+    | [(e, b)], .one e' b' => if (e : Int) == e' && sortKV b == b' then some m else none
+    | _, _ => none
+  | .creset, .reply rp =>
+    let h := StatsSvc.handler true ⟨[114, 10], false⟩ m
+    match StatsSvc.replies h.2, rp with
+    | [(e, b)], .one e' b' => if (e : Int) == e' && sortKV b == b' then some h.1 else none
+    | _, _ => none
+  | .nop, _ => some m
+  | _, _ => none
+
+/-- Linearisability search (Wing & Gong with memoisation).  `threads`: per thread the calls in program
+    order.  A thread's next call may be linearised next iff no other thread's next call returned before
+    it was invoked.  `norm` canonicalises a state for the final comparison. -/
+partial def linSearch {σ : Type} [BEq σ] [Hashable σ] (step : σ → Call → Option σ) (final : σ → Bool)
+    (threads : Array (Array Call)) : σ → Bool := fun init =>
+  let n := threads.size
+  let rec go (stack : List (Array Nat × σ)) (seen : Std.HashSet (Array Nat × σ)) (fuel : Nat) : Bool :=
+    match fuel, stack with
+    | 0, _ => true            -- budget exhausted: undecided, do not alarm
+    | _, [] => false
+    | fuel + 1, (pos, st) :: rest =>
+      if seen.contains (pos, st) then go rest seen fuel else
+      let seen := seen.insert (pos, st)
+      let nexts : List (Nat × Call) := (List.range n).filterMap fun t =>
+        (threads[t]!)[pos[t]!]?.map (fun c => (t, c))
+      if nexts.isEmpty then
+        if final st then true else go rest seen fuel
+      else
+        let minRes := nexts.foldl (fun acc p => min acc p.2.res) ((nexts.head?.map (·.2.res)).getD 0)
+        let cands := nexts.filter (fun p => p.2.inv < minRes || p.2.res == minRes)
+        let succs := cands.filterMap fun (t, c) => (step st c).map (fun st' => (pos.set! t (pos[t]! + 1), st'))
+        go (succs ++ rest) seen fuel
+  go [(Array.replicate n 0, init)] {} 400000
+
+def applyInitSpec (init : List Json) : KV :=
+  init.foldl (fun m j => match parseOp j with
+    | .inc k v => specPut m k ((specGet m k).getD 0 + v)
+    | .set k v => specPut m k v
+    | .reset => m.map (fun p => (p.1, 0))
+    | _ => m) []
+
+def applyInitModel (init : List Json) : StatsSvc.CMap String :=
+  init.foldl (fun m j => match parseOp j with
+    | .inc k v => (StatsSvc.step m (.inc k v)).1
+    | .set k v => (StatsSvc.step m (.set k v)).1
+    | .reset => (StatsSvc.step m .reset).1
+    | _ => m) []
+
+def badOutcome (tr : Json) : Option String :=
+  let oc := jstr tr "outcome"
+  if oc == "ok" || oc == "" then none else some oc
+
+/-- class key for known_findings.txt: the violated clause; scenarios generated for one specific known
+    finding carry their tag in the key so that the finding cannot excuse anything else -/
+def classKey (tag clause : String) : String :=
+  if tag == "trickle-shutdown" then tag ++ ":" ++ clause else clause
+
+def crashVerdict (id tag oc : String) : Json :=
+  verdict id false false ["no_crash"] (classKey tag ("no_crash:" ++ oc.replace " " "_")) [("outcome", Json.str oc)]
+
+def dtorClause (tr : Json) : List String :=
+  let d := jstr tr "destructor"
+  if d == "ok" || d == "skipped" then [] else ["shutdown_completes"]
+
+def tagOf (sc : Json) : String := let t := jstr sc "tag"; if t.isEmpty then jstr sc "kind" else t
+
+def mkVerdict (sc : Json) (accepts : Bool) (viol : List String) (extra : List (String × Json) := []) : Json :=
+  let v := viol.eraseDups
+  verdict (jstr sc "id") accepts v.isEmpty v (if v.isEmpty then "" else classKey (tagOf sc) v.head!) extra
+
+/-! ## kind api -/
+
+def handleApi (sc tr : Json) : Json :=
+  if jstr tr "init" != "ok" then mkVerdict sc false ["init_usable_path"] else
+  let thrOps : List (List AOp) := (jarr sc "threads").map (fun t => (asArr t).map parseOp)
+  let hist := jarr tr "hist"
+  let obsOf (op : AOp) (h : Json) : Obs :=
+    match op with
+    | .get => match objToKV (jobj h "map") with | some m => .snap m | none => .none
+    | .cget | .creset => .reply (parseReply (jstr h "reply"))
+    | .nop => .none
+    | _ => .rc (jint h "ret")
+  let calls : Array (Array Call) := (thrOps.zipIdx.map fun (ops, t) =>
+    (ops.zipIdx.map fun (op, i) =>
+      let h := (hist.find? (fun h => jnat h "th" == t && jnat h "i" == i)).getD Json.null
+      ({ op := op, inv := jnat h "inv", res := jnat h "res", obs := obsOf op h } : Call)).toArray).toArray
+  let all := calls.toList.flatMap (·.toList)
+  let complete := all.all (fun c => c.res > c.inv && c.inv > 0)
+  let finalKV := (objToKV (jobj tr "final")).getD []
+  let init := jarr sc "init"
+  -- model
+  let acc := complete && linSearch modelStep (fun m => sortKV m == finalKV) calls (applyInitModel init)
+  -- property oracle
+  let s0 := applyInitSpec init
+  let lin := complete && linSearch specStep (fun m => m == finalKV) calls s0
+  let v1 := if all.all (fun c => match c.op, c.obs with
+      | .inc _ _, .rc n | .set _ _, .rc n | .reset, .rc n => n == 0
+      | .cget, .reply (.one 0 _) | .creset, .reply (.one 0 []) => true
+      | .cget, _ | .creset, _ => false
+      | _, _ => true) then [] else ["call_succeeds"]
+  let noOverwrite := all.all (fun c => match c.op with | .set _ _ | .reset | .creset => false | _ => true)
+  let touched := (all.filterMap (fun c => match c.op with | .inc k _ | .set k _ => some k | _ => none)).eraseDups
+  let expectSum : KV := sortKV ((s0.map (·.1) ++ touched).eraseDups.map fun k =>
+    (k, (specGet s0 k).getD 0 + (all.foldl (fun a c => match c.op with | .inc k' v => if k' == k then a + v else a | _ => a) 0)))
+  let v2 := if noOverwrite && finalKV != expectSum then ["increments_not_lost"] else []
+  let allKeys := (s0.map (·.1) ++ touched).eraseDups
+  let snaps : List KV := finalKV :: all.filterMap (fun c => match c.obs with
+    | .snap m => some m | .reply (.one _ b) => (match c.op with | .cget => some b | _ => none) | _ => none)
+  let v3 := if snaps.all (fun m => s0.all (fun p => (specGet m p.1).isSome) && m.all (fun p => allKeys.contains p.1))
+            && allKeys.all (fun k => (specGet finalKV k).isSome)
+            then [] else ["reset_keeps_keys"]
+  let v4 := if lin then [] else ["linearisable"]
+  mkVerdict sc acc (v1 ++ v2 ++ v3 ++ v4 ++ dtorClause tr) [("expect_sum", kvJson expectSum)]
+
+/-! ## kind sess -/
+
+structure Sess where
+  bytes : List Nat          -- what reaches the server before it gives up / the client ends
+  stalls : Bool             -- server sees no EOF after them (client keeps the connection open)
+  endMode : String
+
+def sessOf (j : Json) : Sess :=
+  let em := let e := jstr j "end"; if e.isEmpty then "read" else e
+  if jhas j "chunks" then
+    -- a pause of 2 s or more before a chunk is a stall at that point (generator avoids 1.2 s … 2 s)
+    let rec go (cs : List Json) (acc : List Nat) : List Nat × Bool :=
+      match cs with
+      | [] => (acc, false)
+      | c :: r =>
+        match asArr c with
+        | h :: d :: _ => if asNat d ≥ 2000 then (acc, true) else go r (acc ++ hexBytes (asStr h))
+        | _ => go r acc
+    let (bs, cut) := go (jarr j "chunks") []
+    { bytes := bs, stalls := cut || em == "read", endMode := em }
+  else { bytes := hexBytes (jstr j "hex"), stalls := em == "read", endMode := em }
+
+/-- oracle, written without the model: first byte, and whether the request is complete -/
+def oracleAnswered (s : Sess) : Bool :=
+  let w := s.bytes.take 32
+  w.any (fun b => b == 10 || b == 0) || w.length == 32 || !s.stalls
+
+def oracleFirst (s : Sess) : Option Nat :=
+  match s.bytes with
+  | b :: _ => if b == 10 || b == 0 then none else some b
+  | [] => none
+
+def handleSess (sc tr : Json) : Json :=
+  if jstr tr "init" != "ok" then mkVerdict sc false ["init_usable_path"] else
+  let init := jarr sc "init"
+  let s0 := applyInitSpec init
+  let zeros : KV := s0.map (fun p => (p.1, 0))
+  let m0 := applyInitModel init
+  let ss := (jarr sc "sessions").map sessOf
+  let rs := jarr tr "sess"
+  let pendingAtDtor := jhas sc "dtor_at_ms"
+  let anyReset := ss.any (fun s => oracleAnswered s && oracleFirst s == some 114)
+  let pairs := ss.zip rs
+  -- model acceptance
+  let modelResetSeen := ss.any (fun s => (StatsSvc.handler true ⟨s.bytes, s.stalls⟩ m0).1 != m0)
+  let accOne (p : Sess × Json) : Bool :=
+    let (s, r) := p
+    if s.endMode == "reset" then true else
+    let c : StatsSvc.Conn := ⟨s.bytes, s.stalls⟩
+    let obs := parseReply (jstr r "reply")
+    let want (m : StatsSvc.CMap String) : Reply :=
+      match StatsSvc.replies (StatsSvc.handler true c m).2 with
+      | [] => .nothing
+      | (e, b) :: _ => .one e (sortKV b)
+    obs == want m0 || (modelResetSeen && obs == want (StatsSvc.reset m0))
+      || (pendingAtDtor && obs == .nothing)
+  let finalKV := (objToKV (jobj tr "final")).getD []
+  let accFinal := finalKV == sortKV m0 || (modelResetSeen && finalKV == sortKV (StatsSvc.reset m0))
+  let acc := rs.length == ss.length && pairs.all accOne && accFinal
+  -- property clauses
+  let perSess (p : Sess × Json) : List String :=
+    let (s, r) := p
+    let obs := parseReply (jstr r "reply")
+    let conn := if jbool r "connected" then [] else ["server_accepts"]
+    if s.endMode == "reset" then conn else
+    let wf := match obs with | .malformed _ => ["reply_well_formed"] | _ => []
+    let kind := match obs with
+      | .one e b =>
+        let ok := match oracleFirst s with
+          | some 103 => e == 0 && (b == s0 || (anyReset && b == zeros))
+          | some 114 => e == 0 && b.isEmpty
+          | some 48 => e == 0 && b.isEmpty
+          | _ => e == 1 && b.isEmpty
+        if ok then [] else ["reply_kind"]
+      | _ => []
+    let cooperative := oracleAnswered s && !pendingAtDtor
+    let req := if cooperative && obs == .nothing then ["reply_required"] else []
+    let e := jstr r "end"
+    let closed := if e == "eof" || e == "reset" || (pendingAtDtor && e == "none") then [] else ["connection_closed"]
+    conn ++ wf ++ kind ++ req ++ closed
+  let v := pairs.flatMap perSess
+  -- an aborting / hanging destructor ends the process before the sessions are reported
+  let dtorBad := !(dtorClause tr).isEmpty
+  let vlen := if rs.length == ss.length || dtorBad then [] else ["sessions_reported"]
+  let vfin := if finalKV == s0 || (anyReset && finalKV == zeros) then [] else
+              (if finalKV.map (·.1) == s0.map (·.1) then ["counters_unchanged_by_requests"] else ["reset_keeps_keys"])
+  mkVerdict sc acc (dtorClause tr ++ vlen ++ v ++ vfin)
+
+/-! ## kind path -/
+
+def handlePath (sc tr : Json) : Json :=
+  if jhas tr "skipped" then mkVerdict sc true [] [("skipped", Json.bool true)] else
+  let L := jnat tr "path_len"
+  let bad := jstr sc "bad"
+  let who := let w := jstr sc "who"; if w.isEmpty then "server" else w
+  let modelOk := match StatsSvc.copyPath true (List.replicate L 112) with | .ok _ => true | _ => false
+  let initOk := jstr tr "init" == "ok"
+  let clientGot := !isNull (jobj tr "client_get") && jhas tr "client_get"
+  let evs := jarr tr "events" ++ jarr tr "client_events"
+  let intact := evs.all (fun e => jbool e "fd_is_last_socket" && jbool e "path_matches" && jbool e "terminated")
+  let vAddr := if intact then [] else ["address_intact"]
+  let k7 : KV := [("k", 7)]
+  if who == "client" then
+    -- nobody listens: the client must report an error, and must not hand a mangled address to connect(2)
+    let acc := !clientGot && (modelOk || evs.isEmpty)
+    let v := (if clientGot then ["client_reports_error"] else []) ++ vAddr ++
+             (if !modelOk && !evs.isEmpty then ["overlong_path_refused"] else [])
+    mkVerdict sc acc v
+  else if !bad.isEmpty then
+    mkVerdict sc (!initOk) ((if initOk then ["unusable_path_reported"] else []) ++ vAddr)
+  else if L ≥ 108 then
+    let v := (if initOk then ["overlong_path_refused"] else []) ++ vAddr ++
+             (if !evs.isEmpty then ["overlong_path_refused"] else [])
+    mkVerdict sc (!modelOk && !initOk && evs.isEmpty) v
+  else
+    let rawOk := parseReply (jstr (jobj tr "raw_get") "reply") == .one 0 k7
+    let cliOk := !jhas tr "client_get" || objToKV (jobj tr "client_get") == some k7
+    let v := (if initOk then [] else ["fitting_path_works"]) ++
+             (if initOk && !(rawOk && cliOk) then ["fitting_path_works"] else []) ++ vAddr ++
+             (if initOk then dtorClause tr else [])
+    mkVerdict sc (modelOk && initOk && rawOk && cliOk) v
+
+/-! ## kind uninit -/
+
+def handleUninit (sc tr : Json) : Json :=
+  let pre := !jbool tr "pre_isinit" && jint tr "pre_inc" == 1 && jint tr "pre_set" == 1 && jint tr "pre_reset" == 1
+             && objToKV (jobj tr "pre_get") == some []
+  let post := jstr tr "init" == "ok" && jbool tr "post_isinit" && jint tr "post_inc" == 0 && jint tr "post_inc2" == 0
+              && jint tr "post_set" == 0 && jint tr "post_reset" == 0
+  -- model: inc a 2; inc a 3; set b 9; getAll; reset; getAll
+  let m1 := StatsSvc.run ([] : StatsSvc.CMap String) [.inc "a" 2, .inc "a" 3, .set "b" 9]
+  let m2 := StatsSvc.run m1 [.reset]
+  let g1 := objToKV (jobj tr "post_get")
+  let g2 := objToKV (jobj tr "post_get2")
+  let acc := pre && post && g1 == some (sortKV m1) && g2 == some (sortKV m2)
+  let v := (if pre then [] else ["uninitialised_calls_report_error"]) ++
+           (if post then [] else ["call_succeeds"]) ++
+           (if g1 == some [("a", 5), ("b", 9)] then [] else ["increments_not_lost"]) ++
+           (if g2 == some [("a", 0), ("b", 0)] then [] else ["reset_keeps_keys"])
+  mkVerdict sc acc v
 
 def handle (j : Json) : Json :=
-  Json.mkObj [("id", Json.str (jstr (jobj j "s") "id")), ("error", Json.str "engine statsvc not implemented")]
+  let sc := jobj j "s"
+  let tr := jobj j "t"
+  match badOutcome tr with
+  | some oc => crashVerdict (jstr sc "id") (tagOf sc) oc
+  | none =>
+    match jstr sc "kind" with
+    | "api" => handleApi sc tr
+    | "sess" => handleSess sc tr
+    | "path" => handlePath sc tr
+    | "uninit" => handleUninit sc tr
+    | k => Json.mkObj [("id", Json.str (jstr sc "id")), ("error", Json.str s!"unknown kind {k}")]
 
 end Driver.Statsvc
 
